@@ -18,7 +18,6 @@ Definition PKFUncompressed : N := Z.to_N c_PKFUncompressed.
 Definition PKFCompressed : N := Z.to_N c_PKFCompressed.
 Definition PKFHybrid : N := Z.to_N c_PKFHybrid.
 
-Definition lenN {A} (l : list A) : N := N.of_nat (length l).
 
 (* ---------- packAddressData / checkEncodeCashAddress ---------- *)
 Definition PK := lit lits_packAddressData.
